@@ -454,6 +454,12 @@ class TCPClient(_TCPPooling, interfaces.TokenInterface):
         try:
             _, protocol = await connecting
         except asyncio.CancelledError:
+            if connecting.done() and not connecting.cancelled():
+                if connecting.exception() is None:
+                    # The connection came up just when the request that
+                    # asked for it was cancelled. Nobody has filed it anywhere,
+                    # so nobody would ever close it.
+                    connecting.result()[0].abort()
             if self._tokenmanager is None and not asyncio.current_task().cancelling():
                 # It was the shutdown that cancelled the connection setup
                 raise error.LibraryShutdown() from None
